@@ -1087,7 +1087,13 @@ func (tr *Tr) makeInterface(fr *Frame, t types.Type, v Val) Val {
 	tid := f.BVu(64, typeID(t))
 	ls := shape(t)
 	if len(ls) == 2 && ls[0].kind == "ptr.reg" {
-		return Val{tid, v[0], v[1]}
+		out := Val{tid, v[0], v[1]}
+		for _, at := range tr.P.errAsTargets() {
+			if types.Identical(at, t) {
+				tr.assumeHere(tr.errHas(at, out), "value of type "+t.String()+" is found by errors.As")
+			}
+		}
+		return out
 	}
 	// box
 	reg := tr.allocRegion(fr.st)
